@@ -189,6 +189,11 @@ unsigned long le_quad(const byte *d)
 std::optional<Header> read_and_verify_header(DFS::FileAccess *f, std::string& error)
 {
   std::vector<byte> header_data = f->read(0, 19);
+  if (header_data.size() < 19)
+    {
+      error = "file is too short to contain an HxC MFM file header";
+      return std::nullopt;
+    }
   const byte* d = header_data.data();
   /* 0x00 - 0x06 is a magic string, including a terminating NUL. */
   const char expected_magic[7] = "HXCMFM";
@@ -329,6 +334,13 @@ HxcMfmFile::HxcMfmFile(const std::string& name, bool compressed, std::unique_ptr
       ss << "image file encodes more than 2 sides:  " << header->sides;
       throw UnsupportedHxcMfmFile(ss.str());
     }
+  if (header->sides == 0 || header->tracks == 0)
+    {
+      std::ostringstream ss;
+      ss << "image file claims to have " << header->tracks << " tracks and "
+	 << header->sides << " sides";
+      throw InvalidHxcMfmFile(ss.str());
+    }
   /* We can accept any number of tracks, don't care about the RPM or bit rate. */
   if (header->interface_type != 4)
     {
@@ -382,11 +394,21 @@ std::map<TrackDataKey, TrackData> HxcMfmFile::get_track_metadata()
 {
   std::map<TrackDataKey, TrackData> result;
 
-  for (unsigned long pos = header_.track_list_offset;
-       /* termination by break */;
-       pos += 11)
+  // The track list has one entry per track per side, the last of
+  // which describes the last side of the last track.  Don't rely on
+  // finding that entry in order to stop.
+  const unsigned long entries = static_cast<unsigned long>(header_.tracks) * header_.sides;
+  unsigned long pos = header_.track_list_offset;
+  for (unsigned long entry = 0; entry < entries; ++entry, pos += 11)
     {
       std::vector<byte> raw_metadata = file_->read(pos, 11);
+      if (raw_metadata.size() < 11)
+	{
+	  std::ostringstream ss;
+	  ss << "the track list is incomplete; the file ends within entry "
+	     << entry << " of " << entries;
+	  throw InvalidHxcMfmFile(ss.str());
+	}
       const byte* raw = raw_metadata.data();
       const TrackDataKey key(le_word(raw), raw[2]);
       const TrackData td(le_quad(raw+3), le_quad(raw+7));
